@@ -626,7 +626,7 @@ pub fn gen_project(rng: &mut Rng, knobs: &ProjectKnobs) -> Project {
     }
     let mut aliases: Vec<AliasDef> = Vec::new();
     let mut config_alias: Option<(String, String)> = None;
-    if bundle.is_some() && !input_is_file && rng.chance(1, 3) {
+    if (bundle.is_some() || convert) && !input_is_file && rng.chance(1, 3) {
         // two .luaurc files defining the same alias differently: which one governs a
         // file decides what `@lib/...` means there
         let root_target = join(&input_dir, "sub");
